@@ -59,6 +59,7 @@ def run(prog, chk):
     chk.rule('R06.4', 'loops around measure/reset sites cover the whole container with no early exit')
     chk.rule('R06.5', 'simulator typestate: guard before amplitude access; measure sets, reset/allocate clear the flag; guards throw Runtime')
     chk.rule('R06.6', 'only mark/unmark/allocate roles write the measured flags')
+    chk.rule('R06.7', 'a recycled qubit index is reset in the simulator before it is handed out (both measured flags clear)')
 
     # ---- roles: ensure / mark / unmark ----------------------------------------------------
     ens_base = []
@@ -203,6 +204,31 @@ def run(prog, chk):
             elif nm == sim['allocate'].short:
                 n_alloc += 1
                 chk.ob('R06.6', f, node.ln, f in alloc_fns, 'simulator allocate only from the allocation role', key='alloc-site')
+    # ---- R06.7: an index handed out by the allocation role is usable in BOTH copies of the state machine ----------------------
+    # (the evaluator's flag and the simulator's flag are separate; a recycled index whose simulator flag is still set is refused
+    # by the simulator although the evaluator considers it fresh).  In every function that calls the simulator's allocate, each
+    # other value given to the returned index variable (the free-list path) is followed on all normal paths by sim.reset(index).
+    n_hand = 0
+    for f in alloc_fns:
+        g = prog.cfg(f)
+        acalls = [c for c in g.calls(lambda e: R.is_sim_call(e, (sim['allocate'].short,)))]
+        rets = [n for n in g.nodes if n.kind == 'return' and SX.is_node(SX.strip(n.e.get('e'))) and SX.strip(n.e['e']).get('k') == 'ref']
+        ids = {SX.strip(n.e['e']).get('id') for n in rets}
+        if len(ids) != 1:
+            continue
+        rid = ids.pop()
+        for n, l, r, op in g.writes():
+            l0 = SX.strip(l)
+            if not (op == '=' and SX.is_node(l0) and l0.get('k') == 'ref' and l0.get('id') == rid):
+                continue
+            if any(x is c.e for c in acalls for x in SX.walk(r)):
+                continue            # a fresh index: the simulator's allocate starts it unmeasured (R06.5)
+            n_hand += 1
+            rs = [c for c in g.calls(lambda e: R.is_sim_call(e, (sim['reset'].short,)) and SX.is_node(SX.strip(SX.real_args(e)[0])) and SX.strip(SX.real_args(e)[0]).get('id') == rid)]
+            ok = bool(rs) and g.must_follow(n, rs)
+            chk.ob('R06.7', f, n.ln, ok, 'a recycled index (%s = %s) is handed out only after sim.%s(%s): otherwise the simulator still holds it measured while the '
+                   'evaluator marks it fresh' % (l0.get('name'), SX.show(r)[:40], sim['reset'].short, l0.get('name')), key='handout-reset:%s' % f.short)
+    chk.count('recycled-index handouts', n_hand, 1)
     chk.count('gate call sites', n_gate, 8)
     chk.count('measure call sites', n_meas, 3)
     chk.count('reset call sites', n_reset, 3)
